@@ -1192,10 +1192,10 @@ def run(ctx: C.Ctx):
                                             "CPython fractions.Fraction (exact arithmetic and round-half-even of the oracle)",
                                             "bit-exact float codec of harness/props/c20.py (enc_sf/dec_sf: math.frexp/ldexp to (sign, 53-bit mantissa, exponent) and back, self-checked by an assert on every encoded value) and float.hex() as the observation of a binary64 result",
                                             "Coq.Floats.SpecFloat (standard library, pure Gallina over Z: no primitive floats, no axioms) as the definition of the binary64 operations of Host/UtilsFloat.v - this is what is extracted and run; Proofs/UtilsFloatP.v proves these operations equal to Flocq 4.1.0 IEEE754.BinarySingleNaN Bplus/Bminus/Bmult/Bdiv (mode_NE)",
-                                            "Flocq 4.1.0 + Coq Reals for the theorems stated with real numbers (C20_fmap_eq_floats, C20_fmap_rounding_sequence, C20_fmap_lower_endpoint_partial/_guard, C20_fmap_upper_endpoint_partial, C20_fmap_error_bound, C20_float_value_is_fraction, C20_fmap_error_vs_rational_model, C20_fmap_hypotheses_nonvacuous, C20_float_valid_is_B, C20_float_of_int, C20_fsleep_int, C20_fsleep_float): Print Assumptions lists ClassicalDedekindReals.sig_not_dec, ClassicalDedekindReals.sig_forall_dec, FunctionalExtensionality.functional_extensionality_dep and Classical_Prop.classic for them (standard-library axioms of the classical real numbers); every other C20 theorem is closed under the global context"],
+                                            "Flocq 4.1.0 + Coq Reals for the theorems stated with real numbers (C20_fmap_eq_floats, C20_fmap_rounding_sequence, C20_fmap_lower_endpoint_partial/_guard, C20_fmap_upper_endpoint_partial, C20_fmap_error_bound, C20_float_value_is_fraction, C20_fmap_error_vs_rational_model, C20_fmap_hypotheses_nonvacuous, C20_float_valid_is_B, C20_float_of_int, C20_fsleep_int, C20_fsleep_float): Print Assumptions lists ClassicalDedekindReals.sig_not_dec, ClassicalDedekindReals.sig_forall_dec, FunctionalExtensionality.functional_extensionality_dep and Classical_Prop.classic for them (standard-library axioms of the classical real numbers); C20_fmap_agrees_with_primitive_floats evaluates Coq's primitive binary64 floats by vm_compute and Print Assumptions lists the kernel primitives it uses (PrimFloat.add/sub/mul/div/eqb/..., PrimInt63.*: primitive operations of the kernel, not logical axioms; Coq.Floats.FloatAxioms is not imported); every other C20 theorem is closed under the global context"],
     })
     ctx.assumptions += ["two models of Utils.map/sleep: the exact-rational one takes finite numbers and computes on their exact values; the binary64 one (SpecFloat) takes every float (nan, inf, signed zeros, subnormals), every int, bool and None",
-                        "axioms: the real-number theorems about the binary64 model depend on ClassicalDedekindReals.sig_not_dec, ClassicalDedekindReals.sig_forall_dec, FunctionalExtensionality.functional_extensionality_dep, Classical_Prop.classic (Coq Reals, through Flocq); no axiom of ours",
+                        "axioms: the real-number theorems about the binary64 model depend on ClassicalDedekindReals.sig_not_dec, ClassicalDedekindReals.sig_forall_dec, FunctionalExtensionality.functional_extensionality_dep, Classical_Prop.classic (Coq Reals, through Flocq); the primitive-float cross-check lists the kernel's PrimFloat/PrimInt63 primitives; no axiom of ours",
                         "the implementation runner observes Core only through its five functions and its three module-level dicts"]
 
 
